@@ -118,10 +118,13 @@ func c13R1R4(c *Ctx, r *Report) {
 		if !xok || !yok {
 			return
 		}
-		if xphi.Comment == "itemsSent" && yphi.Comment == "sentChanges" {
+		// the accumulator is the operand whose phi is fed by this very sum (acc = φ(…, acc + n)); the other operand is the
+		// per-page counter (identified by that role, not by name)
+		switch {
+		case phiFedBy(xphi, b) && !phiFedBy(yphi, b):
 			sentCell = yphi
 			okCount = c13CounterOnlyAfterSend(lit, yphi)
-		} else if yphi.Comment == "itemsSent" && xphi.Comment == "sentChanges" {
+		case phiFedBy(yphi, b) && !phiFedBy(xphi, b):
 			sentCell = xphi
 			okCount = c13CounterOnlyAfterSend(lit, xphi)
 		}
@@ -455,4 +458,26 @@ func CalleeIdentOf(name string) string {
 		}
 	}
 	return name
+}
+
+// phiFedBy: value v reaches phi p through phi edges only.
+func phiFedBy(p *ssa.Phi, v ssa.Value) bool {
+	seen := map[*ssa.Phi]bool{}
+	var walk func(q *ssa.Phi) bool
+	walk = func(q *ssa.Phi) bool {
+		if seen[q] {
+			return false
+		}
+		seen[q] = true
+		for _, e := range q.Edges {
+			if e == v {
+				return true
+			}
+			if pe, ok := e.(*ssa.Phi); ok && walk(pe) {
+				return true
+			}
+		}
+		return false
+	}
+	return walk(p)
 }
